@@ -1203,6 +1203,130 @@ Proof.
   apply (preload_first_lemma f s1 n (mkLoader k sc) s' r); auto. simpl. apply upd_same.
 Qed.
 
+(* the loader of n re-requires n on ANY thread of the state (t): the loop error, sentinel left *)
+Lemma loop_across_coroutine_lemma t f s n o k rest :
+  truthy (loaded s n) = false -> search loLoaders s n [] = inr (o, k, Require t n :: rest) ->
+  exists s', require (S (S f)) s n = (s', Err (ELoop n)) /\ loaded s' n = VSent.
+Proof.
+  intros Ht Hs.
+  destruct (self_require_is_loop_error_lemma s n [] (S (S f))) as (s' & E & Hin & _).
+  - constructor; [intros []|constructor].
+  - cbn [links hd]. split; [exists t, o, k, rest; exact Hs|exact I].
+  - intros m [<-|[]]. exact Ht.
+  - simpl. lia.
+  - exists s'. split; [exact E|apply Hin; now left].
+Qed.
+
+(* ------------------------------------------------------------------ *)
+(* a script re-binds package.preload (wave 5) *)
+
+Lemma new_preload_kept s keep n :
+  memz n keep = true -> loLoaderPreload (new_preload s keep) n = loLoaderPreload s n.
+Proof. intros H. unfold loLoaderPreload. simpl. now rewrite H. Qed.
+
+Lemma new_preload_dropped s keep n :
+  memz n keep = false ->
+  preload (new_preload s keep) n = None /\
+  loLoaderPreload (new_preload s keep) n = SMsg [TPre n] /\
+  loLoaderLua (new_preload s keep) n = loLoaderLua s n.
+Proof. intros H. unfold loLoaderPreload. simpl. rewrite H. repeat split. Qed.
+
+(* PreloadModule / package.preload[n]=f AFTER the table was replaced: the entry is what require runs,
+   whatever was kept, whatever files exist *)
+Lemma preload_after_rebind_lemma fuel f s keep n l :
+  truthy (loaded s n) = false ->
+  let s1 := fst (run fuel s [HNewPreload keep; HSetPreload n (Some l)]) in
+  preload s1 n = Some l /\
+  forall s' r, require (S f) s1 n = (s', r) -> exists l', log s' = l' ++ (n, OPre) :: log s.
+Proof.
+  intros Ht. simpl. split; [apply upd_same|]. intros s' r E. destruct l as [k sc].
+  apply (preload_module_found_lemma f (new_preload s keep) n k sc Ht s' r E).
+Qed.
+
+(* replacing the table touches nothing but package.preload: what is cached stays cached *)
+Lemma rebind_keeps_cache_lemma f s keep n :
+  truthy (loaded s n) = true -> is_sent (loaded s n) = false ->
+  require (S f) (new_preload s keep) n = (new_preload s keep, Ok (loaded s n)).
+Proof. intros Ht Hs. rewrite require_S. cbv zeta. simpl. now rewrite Ht, Hs. Qed.
+
+(* ------------------------------------------------------------------ *)
+(* thread annotations are transparent (wave 5): moving every nested require of every installed
+   loader to the loader's own thread changes no result and no state *)
+
+Lemma strip_find_file fs n : forall p msgs,
+  loFindFile (fun d m => option_map strip_file (fs d m)) n p msgs =
+  match loFindFile fs n p msgs with
+  | inl (d, c) => inl (d, strip_file c)
+  | inr t => inr t
+  end.
+Proof.
+  induction p as [|d p IH]; intros msgs; simpl; [reflexivity|].
+  destruct (fs d n) as [[sc| |]|]; simpl; auto.
+Qed.
+
+Lemma strip_search s n :
+  search loLoaders (strip_state s) n [] =
+  match search loLoaders s n [] with
+  | inl e => inl e
+  | inr (o, k, sc) => inr (o, k, map same_thread sc)
+  end.
+Proof.
+  unfold loLoaders, search, loLoaderPreload, loLoaderLua. simpl.
+  destruct (preload s n) as [l|]; simpl; [reflexivity|].
+  rewrite strip_find_file. destruct (loFindFile (files s) n (path s) []) as [[d [sc| |]]|t]; reflexivity.
+Qed.
+
+Lemma strip_do_module s self k :
+  do_module (strip_state s) self k = (strip_state (fst (do_module s self k)), snd (do_module s self k)).
+Proof.
+  unfold do_module, find_table_global. simpl.
+  destruct (is_table (loaded s self)); [destruct k; reflexivity|].
+  destruct (globals s self); destruct k; reflexivity.
+Qed.
+
+Lemma strip_finish s n ret :
+  finish (strip_state s) n ret = (strip_state (fst (finish s n ret)), snd (finish s n ret)).
+Proof.
+  unfold finish. destruct (is_nil ret); simpl.
+  - destruct (is_sent (loaded s n)); reflexivity.
+  - destruct (is_sent (upd (loaded s) n ret n)); reflexivity.
+Qed.
+
+Lemma strip_run_script (req : state -> name -> state * result) self id k :
+  (forall s m, req (strip_state s) m = (strip_state (fst (req s m)), snd (req s m))) ->
+  forall sc s,
+  run_script req self id k (map same_thread sc) (strip_state s) =
+  (strip_state (fst (run_script req self id k sc s)), snd (run_script req self id k sc s)).
+Proof.
+  intros Hreq. induction sc as [|a sc IH]; intros s; [reflexivity|].
+  destruct a; cbn [map same_thread run_script].
+  - rewrite Hreq. destruct (req s m) as [s1 res]. cbn [fst snd].
+    destruct res; try reflexivity. apply IH.
+  - rewrite Hreq. destruct (req s m) as [s1 res]. cbn [fst snd].
+    destruct res; try reflexivity; apply IH.
+  - apply (IH (set_loaded s self (eval id e))).
+  - rewrite strip_do_module. destruct (do_module s self k) as [s1 [e|]]; cbn [fst snd]; [reflexivity|apply IH].
+  - reflexivity.
+  - reflexivity.
+  - reflexivity.
+Qed.
+
+Lemma require_thread_transparent_lemma : forall f s n,
+  require f (strip_state s) n = (strip_state (fst (require f s n)), snd (require f s n)).
+Proof.
+  induction f as [|f IH]; intros s n; [reflexivity|].
+  rewrite !require_S. cbv zeta. rewrite strip_search.
+  change (loaded (strip_state s) n) with (loaded s n).
+  destruct (truthy (loaded s n)); [destruct (is_sent (loaded s n)); reflexivity|].
+  destruct (search loLoaders s n []) as [e|[[o k] sc]]; [reflexivity|].
+  change (enter (set_loaded (strip_state s) n VSent) n o) with (strip_state (enter (set_loaded s n VSent) n o)).
+  change (next (set_loaded (strip_state s) n VSent)) with (next (set_loaded s n VSent)).
+  rewrite (strip_run_script (require f) n _ k IH).
+  destruct (run_script (require f) n (next (set_loaded s n VSent)) k sc (enter (set_loaded s n VSent) n o))
+    as [s3 r]. cbn [fst snd].
+  destruct r; try reflexivity. apply strip_finish.
+Qed.
+
 (* ------------------------------------------------------------------ *)
 (* host initialisation in any order *)
 
